@@ -10,6 +10,7 @@ import Smpl.Drv.Stream
 import Smpl.Drv.Transcode
 import Smpl.Drv.Wav
 import Smpl.Drv.Cue
+import Smpl.Drv.Names
 open Smpl.Drv
 
 def dispatch (line : String) : String :=
@@ -21,6 +22,7 @@ def dispatch (line : String) : String :=
   | "trans" :: rest => transOp rest
   | "wav" :: rest => wavOp rest
   | "cue" :: rest => cueOp rest
+  | "names" :: rest => namesOp rest
   | _ => "bad-op"
 
 partial def loop (hin hout : IO.FS.Stream) : IO Unit := do
